@@ -365,12 +365,18 @@ func (s *pState) render(cw *cwriter.Writer) (err error) {
 func (s *pState) flush(cw *cwriter.Writer, height int, iter <-chan *Bar) error {
 	var popCount int
 	var rows []io.Reader
+	// bars to hand back to the heap manager; sent once it has finished feeding
+	// iter, because until then it can't receive and a push could only be queued
+	var pushes []pushData
 
 	for b := range iter {
 		frame := <-b.frameCh
 		if frame.err != nil {
 			close(s.iterDrop)
 			b.cancel()
+			for _, p := range pushes {
+				s.hm.push(p.bar, p.sync)
+			}
 			return frame.err // b.frameCh is buffered it's ok to return here
 		}
 		var usedRows int
@@ -389,13 +395,13 @@ func (s *pState) flush(cw *cwriter.Writer, height int, iter <-chan *Bar) error {
 			if qb, ok := s.queueBars[b]; ok {
 				delete(s.queueBars, b)
 				qb.priority = b.priority
-				s.hm.push(qb, true)
+				pushes = append(pushes, pushData{qb, true})
 			} else if s.popCompleted && !frame.noPop {
 				b.priority = s.popPriority
 				s.popPriority++
-				s.hm.push(b, false)
+				pushes = append(pushes, pushData{b, false})
 			} else if !frame.rmOnComplete {
-				s.hm.push(b, false)
+				pushes = append(pushes, pushData{b, false})
 			}
 		case 2:
 			if s.popCompleted && !frame.noPop {
@@ -404,8 +410,12 @@ func (s *pState) flush(cw *cwriter.Writer, height int, iter <-chan *Bar) error {
 			}
 			fallthrough
 		default:
-			s.hm.push(b, false)
+			pushes = append(pushes, pushData{b, false})
 		}
+	}
+
+	for _, p := range pushes {
+		s.hm.push(p.bar, p.sync)
 	}
 
 	for i := len(rows) - 1; i >= 0; i-- {
